@@ -1,5 +1,5 @@
 """Package tree for the C19 check (dynamic registration); packages import their submodules eagerly."""
-from . import m1, sub, alt  # noqa
+from . import m1, sub, alt, tools  # noqa
 
 
 def top_fn(x=0):
